@@ -90,8 +90,12 @@ func (w *jobctlWorld) addForeign(name string) {
 
 func (w *jobctlWorld) setKill(at int64) {
 	t := metav1.NewTime(time.Unix(at, 0))
+	fin := w.apiJob() != nil && w.apiJob().Status.Condition.Finished != nil
 	w.api.Mutate("jobs", w.jobKey, func(o runtime.Object) { o.(*execution.Job).Spec.KillTimestamp = &t })
-	w.userEdited, w.resultEdited = true, true
+	w.userEdited = true
+	if fin {
+		w.resultEdited = true
+	}
 	w.c.Emit(fmt.Sprintf("jc.kill %d", at), w.state())
 	w.monitorJobVersion()
 }
